@@ -158,6 +158,7 @@ PROPS.update({
 
 # C09's concurrent clause: an implementation-side judge under real concurrency (N publishes -> N records, increasing offsets)
 PROPS["C09"]["parts"].append(dict(name="pubstore09", domain="store", domain_module="store", gen=store.gen_pub, n_quick=60, n_thorough=2500, chunk=16))
+PROPS["C12"]["parts"].append(dict(name="racepub12", domain="resume", domain_module="resume", gen=resume.gen_racepub, n_quick=6, n_thorough=200, chunk=4))
 PROPS["C09"]["parts"].append(dict(name="racepub09", domain="resume", domain_module="resume", gen=resume.gen_racepub, n_quick=6, n_thorough=200, chunk=4))
 
 # C07's "every event is still delivered to it exactly once": the sequential machine with mostly Sequential handlers,
